@@ -208,12 +208,17 @@ static void run_batch(int j) {
   __CPROVER_assume(IN.xempty <= 1 && IN.yempty <= 1);
   int k = IN.shape;
   __CPROVER_assume(k >= j * BATCHSZ && k < (j + 1) * BATCHSZ && k < NSHAPES);
+  int e = IN.xempty + 2 * IN.yempty;
   for (int i = j * BATCHSZ; i < (j + 1) * BATCHSZ; i++) {
     if (i >= NSHAPES || k != i) continue;
     IN.nbody = shape_tab[i].n;                      // concrete body inside this case
     for (int t = 0; t < MAXBODY; t++) IN.body[t] = shape_tab[i].b[t];
-    run_shape();
-    return;
+    for (int c = 0; c < 4; c++) {                   // ... and concrete argument emptiness inside this case
+      if (e != c) continue;
+      IN.xempty = c & 1; IN.yempty = c >> 1;
+      run_shape();
+      return;
+    }
   }
 }
 static void run_shape(void) {
@@ -244,12 +249,10 @@ static void run_shape(void) {
   ax.next = &ay;
   Token *out = NULL;
   expect_no_diag = r == 1;
-  if (r == 0) VCOVER();        // (the diagnostic ends the path: the vacuity witness for ill-formed bodies sits before the call)
+  // ill-formed replacement list (# without parameter, ## at an end): a constraint violation, the
+  // standard prescribes no token sequence; whether it is diagnosed is not part of C09 (not claimed)
+  if (r == 0) { VCOVER(); return; }
   TRY(out = subst(body, &ax));
-  if (r == 0) {
-    VASSERT(verif_diag, "ill-formed replacement list (# without parameter, ## at an end) is diagnosed");
-    return;
-  }
   if (verif_diag) return;
   Token *t = out;
   for (int k = 0; k < MAXBODY + 1; k++) {
